@@ -28,6 +28,10 @@ ASSUMPTIONS = [
     "sideMargin >= 0 (not validated by RoughLegalizationParameters::check; a negative margin makes clipped rows overlap, outside 'free row area')",
     "binSize >= 1 after truncation (check() demands binSize >= 1.0 and there is a cell of positive height); |minCellHeight| < 2^24 so int->float is exact",
     "regions are rectangles with min <= max (inverted rectangles are outside the statement); overlapping regions are exercised for the correspondence only",
+    "coordinate clause: on an axis where the whole placement area has zero extent (min == max; reachable only through "
+    "DensityGrid(binSize, regions) with degenerate rectangles, never through fromIspdCircuit) the binary32 combination "
+    "dem*max + (1-dem)*min can be one ulp away from max == min (observed: area x in [20,20], spreadCoordX = 20.000002); that axis "
+    "is skipped by the oracle and counted (coords_axis_skipped_zero_extent_area)",
     "float passes (rebisect/reoptimize/transport/run) are not driven on degenerate grids (zero width/height or zero total capacity), where the code divides by the extent",
 ]
 LEVEL_TEXT = ("Lean 4 theorems over an executable model of computeSubdivisions, DensityGrid (limits, capacities as sums of rectangle "
